@@ -90,6 +90,12 @@ func init() {
 		fr.i.path.memo["url|"+tStr(u)] = urlParts{scheme: a[0], host: a[3], path: a[4], user: a[1], pass: a[2]}
 		return u
 	}
+	// verifURLRel(host, path): a scheme-relative reference "//host/path"
+	verifAPI["verifURLRel"] = func(fr *frame, a []value) value {
+		u := mkConcat(mkConcat("//", a[0]), a[1])
+		fr.i.path.memo["url|"+tStr(u)] = urlParts{scheme: "", host: a[0], path: a[1]}
+		return u
+	}
 	verifAPI["verifURL"] = func(fr *frame, a []value) value {
 		u := mkConcat(mkConcat(mkConcat(a[0], "://"), a[1]), a[2])
 		fr.i.path.memo["url|"+tStr(u)] = urlParts{scheme: a[0], host: a[1], path: a[2]}
@@ -194,6 +200,9 @@ func init() {
 		r := mkConcat(mkConcat(mkConcat(sch, "://"), host), path)
 		if qc, ok := q.(string); !ok || qc != "" {
 			r = mkConcat(mkConcat(r, "?"), q)
+		} else {
+			// remember the parts so that parsing the text again gives them back
+			fr.i.path.memo["url|"+tStr(r)] = urlParts{scheme: sch, host: host, path: path}
 		}
 		return r
 	})
